@@ -395,8 +395,58 @@ func dropPhi(t string) string {
 }
 
 // normSlot: w[:f][~x] with f possibly a decision expression
+// bitTestNorm: for a single-bit mask K, `x&K == K` is `x&K != 0` (and `x&K != K` is `x&K == 0`)
+func bitTestNorm(t string) string {
+	for from := 0; ; {
+		i := strings.Index(t[from:], "xf[")
+		if i < 0 {
+			return t
+		}
+		i += from
+		j := strings.Index(t[i:], "]")
+		if j < 0 {
+			return t
+		}
+		j += i
+		items := strings.Split(t[i+3:j], ",")
+		mask := ""
+		for _, it := range items {
+			if strings.HasPrefix(it, "&:") {
+				mask = it[2:]
+			}
+		}
+		pow2 := false
+		if mask != "" {
+			n := 0
+			ok := true
+			for _, c := range mask {
+				if c < '0' || c > '9' {
+					ok = false
+					break
+				}
+				n = n*10 + int(c-'0')
+			}
+			pow2 = ok && n > 0 && n&(n-1) == 0
+		}
+		if pow2 {
+			for k, it := range items {
+				if it == "==:"+mask {
+					items[k] = "!=:0"
+				} else if it == "!=:"+mask {
+					items[k] = "==:0"
+				}
+			}
+			sort.Strings(items)
+		}
+		rep := "xf[" + strings.Join(items, ",") + "]"
+		t = t[:i] + rep + t[j+1:]
+		from = i + len(rep)
+	}
+}
+
 func normSlot(t string) string {
 	t = dropPhi(t)
+	t = bitTestNorm(t)
 	// a constant width written symbolically: var(const:16) is 16
 	if strings.HasPrefix(t, "var(const:") {
 		j := len("var(const:")
